@@ -2127,7 +2127,9 @@ namespace gch
         GCH_TRY
         {
           // Note: Not != because `using namespace std::rel_ops` can break constexpr.
-          for (; ! (first == last); ++first, static_cast<void> (++d_last))
+          // Advance `d_last` first so that the element just constructed is destroyed if
+          // incrementing `first` throws.
+          for (; ! (first == last); ++d_last, static_cast<void> (++first))
             construct (d_last, *first);
           return d_last;
         }
